@@ -27,20 +27,12 @@ def validate(rep, binary, tier, seed):
                        shards=8, key_fn=key_fn)
     if hists:
         rep.sample(dict(kind="recorded history", events=hists[0][:12]))
-        # self-test of the binding: corrupt one recorded field -> TLC must reject
-        bad = copy.deepcopy(max(hists, key=len))
-        flipped = False
-        for e in bad:
-            if e.get("ev") == "ret" and e.get("res") not in ("ok", "panic", "ret"):
-                e["res"] = str(int(e["res"]) + 1)
-                flipped = True
-                break
-        if not flipped:
-            for e in bad:
-                if e.get("ev") == "ret" and e.get("res") == "ok":
-                    e["res"] = "panic"
-                    flipped = True
-                    break
-        if flipped:
-            acc, r, info = trace.validate("waitgroup", "WaitGroupTrace", "Trace.cfg", [bad])
-            rep.self_test("trace spec rejects a corrupted return value", acc is False, str(info)[:200])
+        # self-test of the binding on a history WITHOUT concurrency (a corrupted value inside a concurrent run may
+        # still be explainable, which made this self-test fail by chance): Add(2) then Num() must be "2"
+        def seqhist(ans):
+            return [dict(ev="call", t="t0", id=1, op="add", arg=2, seq=1), dict(ev="ret", t="t0", id=1, res="ok", seq=2),
+                    dict(ev="call", t="t0", id=2, op="num", arg=0, seq=3), dict(ev="ret", t="t0", id=2, res=ans, seq=4)]
+        acc, r, info = trace.validate("waitgroup", "WaitGroupTrace", "Trace.cfg", [seqhist("2")])
+        rep.self_test("trace spec accepts a correct sequential history", acc is True, str(info)[:200])
+        acc, r, info = trace.validate("waitgroup", "WaitGroupTrace", "Trace.cfg", [seqhist("3")])
+        rep.self_test("trace spec rejects a corrupted return value", acc is False, str(info)[:200])
